@@ -24,11 +24,11 @@ COVERS = [
 ]
 
 
-def sv_bad_atoms(n, steps):
+def sv_bad_atoms(n, steps, slm=False):
     def fn(env):
         T = env.torch
         bad = [env.boolean(f"bad_{i}") for i in range(n)]
-        data, sym = make_data(env, n, steps, bad_atoms=bad, prep_error=0.1, last_time=40)
+        data, sym = make_data(env, n, steps, bad_atoms=bad, prep_error=0.1, last_time=40, slm=slm)
         om0, de0, ph0 = sym.omega.clone(), sym.delta.clone(), sym.phi.clone()
         sym_ref = SimpleNamespace(**{**sym.__dict__, "omega": om0, "delta": de0, "phi": ph0})
         cfg = sv_stub_config(initial_state=None)
@@ -44,7 +44,9 @@ def sv_bad_atoms(n, steps):
         if env.mutant("bad_atoms_driven"):
             zero = []
         for k, c in enumerate(rec.calls):
-            H = h_ref_step(env, sym_ref, k, sym.full, n, zero_sites=zero)
+            # with bad atoms the interaction matrix stays time dependent (SLM mask): masked before its end, full after
+            Uk = sym.masked if (slm and bool(sym.ts[k] < sym.slm_end)) else sym.full
+            H = h_ref_step(env, sym_ref, k, Uk, n, zero_sites=zero)
             want = (-1.0j) * ((sym.ts[k + 1] - sym.ts[k]) * 0.001) * H
             env.check_eq(c.M, want, f"emu-sv step {k}: badly prepared atoms are not driven, detuned or interacting (n={n})")
         g = T.zeros(2**n, dtype=T.complex128)
@@ -133,6 +135,9 @@ def cases(tier):
         out.append(
             Case(f"sv_bad_atoms_n{n}_steps{k}", sv_bad_atoms(n, k), covers=COVERS, bounds={"atoms": n, "steps": k, "masks": "all"}, canaries=["bad_atoms_driven"], weight=4**n)
         )
+    out.append(
+        Case("sv_bad_atoms_n2_steps2_slm", sv_bad_atoms(2, 2, slm=True), covers=COVERS, bounds={"atoms": 2, "steps": 2, "masks": "all", "slm_mask": "symbolic end time, symbolic masked/full matrices"}, canaries=["bad_atoms_driven"], weight=40)
+    )
     out.append(Case("sv_rejects_initial_state", sv_rejects_initial_state(2), covers=COVERS, bounds={"atoms": 2}))
     grid = [(3, 2, True), (3, 3, False), (2, 2, True)] if q else [(2, 2, True), (3, 2, True), (3, 3, True), (4, 2, True), (4, 3, False), (4, 2, False)]
     for n, d, ro in grid:
